@@ -119,6 +119,7 @@ class Ctx:
         self.choices: list = []
         self.inputs: list[str] = []
         self.soft_bounds: list = []
+        self.soft: list = []  # facts used only when looking for a replayable counterexample model
         self.notes: list = []
         self.features: set = set()
         self.stats = explorer.stats
